@@ -310,6 +310,108 @@ def rule_r4(chk, prog, effects):
             pass
 
 
+# --------------------------------------------------------------------- R6
+def sigint_findings(mod, worker_inits=()):
+    """(call, why) for every change of the SIGINT disposition in ``mod``
+    after which an interrupt no longer raises KeyboardInterrupt in the
+    process that executes it."""
+    out = []
+    ncalls = 0
+    for fn in ast.walk(mod.tree):
+        if not isinstance(fn, (ast.FunctionDef, ast.Module)):
+            continue
+        if isinstance(fn, ast.FunctionDef) and fn.name in worker_inits:
+            continue  # runs in the pool's worker processes only
+        body_calls = [c for c in (walk_no_nested(fn) if isinstance(
+            fn, ast.FunctionDef) else ast.iter_child_nodes(fn))
+                      if isinstance(c, ast.Call)] if isinstance(
+                          fn, ast.FunctionDef) else [
+                              c for st in fn.body
+                              if not isinstance(st, (ast.FunctionDef,
+                                                     ast.ClassDef))
+                              for c in ast.walk(st)
+                              if isinstance(c, ast.Call)]
+        sig = [c for c in body_calls
+               if (call_name(c) or '') in ('signal.signal', )
+               and len(c.args) == 2 and unparse(c.args[0]).endswith(
+                   'SIGINT')]
+        if not sig:
+            continue
+        ncalls += len(sig)
+        sig.sort(key=lambda c: (c.lineno, c.col_offset))
+        # names holding a previous disposition
+        saved = set()
+        for st in ast.walk(fn):
+            if isinstance(st, ast.Assign) and isinstance(
+                    st.value, ast.Call) and (call_name(st.value) or '') in (
+                        'signal.signal', 'signal.getsignal'):
+                for t in st.targets:
+                    if isinstance(t, ast.Name):
+                        saved.add(t.id)
+        for k, c in enumerate(sig):
+            h = unparse(c.args[1])
+            if h.endswith('SIG_DFL'):
+                out.append((c, 'SIGINT is set to SIG_DFL: from here on an '
+                            'interrupt kills the process at once instead of '
+                            'raising KeyboardInterrupt - main()\'s handler, '
+                            'the finalisers and the removal of the '
+                            'temporary directory are skipped (Python\'s '
+                            'disposition is signal.default_int_handler; '
+                            'restore the value signal.signal() returned)'))
+            elif h.endswith('SIG_IGN'):
+                later = [unparse(c2.args[1]) for c2 in sig[k + 1:]]
+                restored = any(
+                    l in saved or l.endswith('default_int_handler')
+                    for l in later)
+                if not restored:
+                    out.append((c, 'SIGINT is ignored and the previous '
+                                'disposition is not restored in this '
+                                'function: the process can no longer be '
+                                'interrupted in an orderly way'))
+    return out, ncalls
+
+
+def rule_r6(chk, prog):
+    chk.rule('C06.R6', 'the main process keeps Python\'s SIGINT disposition '
+             '(KeyboardInterrupt): it is never set to SIG_DFL, and ignored '
+             'only between a save and a restore of the previous handler')
+    n = 0
+    worker_inits = set()
+    for m in prog.pkg_modules():
+        for c in ast.walk(m.tree):
+            if isinstance(c, ast.Call):
+                v = kw(c, 'initializer')
+                if v is not None:
+                    worker_inits.add(unparse(v).split('.')[-1])
+    for m in prog.pkg_modules():
+        if 'tests' in m.rel():
+            continue
+        fs, k = sigint_findings(m, worker_inits)
+        n += k
+        for (c, why) in fs:
+            fn = _fn(c)
+            q = fn._qualname if fn is not None else '<module>'
+            chk.check('C06.R6', f'{m.name}.{q}', c, False, why,
+                      loc=m.loc(c), nontrivial=True)
+    # zero-count rule: the detector must fire on the fixture
+    import os
+    from ..loader import Module
+    from ..report import VERIF
+    fx = os.path.join(VERIF, 'fixtures', 'sigint_disposition.py')
+    if not os.path.isfile(fx):
+        raise AnalysisError('fixture fixtures/sigint_disposition.py missing')
+    fm = Module('fixture', fx, open(fx).read())
+    fs, k = sigint_findings(fm)
+    where = sorted({_fn(c).name for (c, _) in fs})
+    if where != ['bad_default', 'bad_ignore_forever']:
+        raise AnalysisError('C06.R6 self-check: the SIGINT fixture is '
+                            f'judged {where}')
+    chk.instance('C06.R6', 'package', f'{n} changes of the SIGINT '
+                 'disposition examined; fixture: 2 planted defects '
+                 'detected, save/restore idiom accepted', True,
+                 'zero-count rule with positive example')
+
+
 def run(tier):
     prog = Program()
     chk = Check(
@@ -336,6 +438,7 @@ def run(tier):
     chk.guard(rule_r4, chk, prog, effects)
     from . import c05
     chk.guard(c05.rule_adopt_write, chk, prog, 'C06.R5')
+    chk.guard(rule_r6, chk, prog)
     extra = None
     if tier == 'thorough':
         from .. import selftest
